@@ -27,7 +27,7 @@ def gen(rng, tier):
             for it in (True, False):
                 yield {'trajs': [t], 'lag': tau, 'iter': it, 'form': 'arr1', 'alpha': 'enum'}
     yield 'EXHAUSTIVE'
-    n = 400 if tier == 'quick' else 20000
+    n = G.budget(400) if tier == 'quick' else 20000
     for _ in range(n):
         labs, akind = G.alphabet(rng, k=rng.randint(2, 4))
         lag = rng.choice([1, 2, 2, 3, 3, 4, 5, 7, 12, 0, -2])
